@@ -66,7 +66,12 @@ pub fn run_hist<'a, T>(h: &'a Hist, mk: &dyn Fn(&'a str) -> Option<T>) -> Option
 where
     T: PurlShape + Clone + Reparse,
 {
-    let mut b = GenericPurlBuilder::new(mk(&h.ty)?, h.name.as_str());
+    // the two documented ways to start a builder, chosen by the history (replays are stable)
+    let mut b = if (h.name.len() + h.calls.len()) % 2 == 0 {
+        GenericPurlBuilder::new(mk(&h.ty)?, h.name.as_str())
+    } else {
+        GenericPurl::<T>::builder(mk(&h.ty)?, h.name.as_str())
+    };
     let mut setters = Vec::new();
     for (i, c) in h.calls.iter().enumerate() {
         crate::obs::event(format!("builder.{c:?}"));
@@ -216,6 +221,24 @@ where
             Call::PartsQualEntry(k, v) => guard("entry", || {
                 if let Ok(e) = b.parts.qualifiers.entry(k.as_str()) {
                     e.and_modify(|x| x.push_str(v)).or_insert(v.as_str());
+                }
+                b
+            }),
+            Call::PartsTruncate(f, n) => guard("truncate", || {
+                fn cut(s: &mut SmallString, n: usize) {
+                    let mut n = n.min(s.len());
+                    while !s.is_char_boundary(n) {
+                        n -= 1;
+                    }
+                    s.truncate(n);
+                }
+                let n = *n as usize;
+                match f {
+                    0 => cut(&mut b.parts.namespace, n),
+                    1 => cut(&mut b.parts.name, n),
+                    2 => cut(&mut b.parts.version, n),
+                    3 => cut(&mut b.parts.subpath, n),
+                    _ => b.parts.qualifiers.iter_mut().for_each(|(_, v)| cut(v, n)),
                 }
                 b
             }),
